@@ -137,7 +137,7 @@ def stepPure (toks : List String) : Option String :=
       let ts ← ts.toNat?; let start ← start.toInt?; let pre ← pre.toNat?; let kind ← b01 kind; let idem ← b01 idem
       let valid := validStartTick start ts
       -- a pre-existing array can only have been created for a valid start index
-      let preT : TarrPre := if pre = 3 then .foreign else if pre = 1 && valid then .fixed else if pre = 2 && valid then .dynamic else .nothing
+      let preT : TarrPre := if pre = 4 then .wrongAddress else if pre = 3 then .foreign else if pre = 1 && valid then .fixed else if pre = 2 && valid then .dynamic else .nothing
       pure (match initializeTickArrayIx kind idem preT start ts with
         | .ok .createdFixed => "ok fixed 9988"
         | .ok .createdDynamic => "ok dynamic 148"
@@ -147,15 +147,15 @@ def stepPure (toks : List String) : Option String :=
       let admin ← b01 admin; let proto ← proto.toNat?
       pure (match initializeConfigIx admin proto with | .ok p => s!"ok {p}" | .error e => "err " ++ e)
   | ["xini", "tier", auth, pre, ts, fee] => do
-      let auth ← auth.toNat?; let pre ← b01 pre; let ts ← ts.toNat?; let fee ← fee.toNat?
-      pure (match initializeFeeTierIx auth pre ts fee with | .ok (a, f) => s!"ok {a} {f}" | .error e => "err " ++ e)
+      let auth ← auth.toNat?; let pre ← pre.toNat?; let ts ← ts.toNat?; let fee ← fee.toNat?
+      pure (match initializeFeeTierIx auth (pre == 1) (pre == 2) ts fee with | .ok (a, f) => s!"ok {a} {f}" | .error e => "err " ++ e)
   | ["xini", "atier", auth, pre, idx, ts, fee, fp, dp, rf, cf, mv, gs, th] => do
-      let auth ← auth.toNat?; let pre ← b01 pre; let idx ← idx.toNat?; let ts ← ts.toNat?; let fee ← fee.toNat?
+      let auth ← auth.toNat?; let pre ← pre.toNat?; let idx ← idx.toNat?; let ts ← ts.toNat?; let fee ← fee.toNat?
       let fp ← fp.toNat?; let dp ← dp.toNat?; let rf ← rf.toNat?; let cf ← cf.toNat?
       let mv ← mv.toNat?; let gs ← gs.toNat?; let th ← th.toNat?
       let c : AfConstants := { filterPeriod := fp, decayPeriod := dp, reductionFactor := rf, controlFactor := cf, maxVolAcc := mv,
                                groupSize := gs, majorSwapThresholdTicks := th }
-      pure (match initializeAdaptiveFeeTierIx auth pre idx ts fee c with | .ok (a, f) => s!"ok {a} {f}" | .error e => "err " ++ e)
+      pure (match initializeAdaptiveFeeTierIx auth (pre == 1) (pre == 2) idx ts fee c with | .ok (a, f) => s!"ok {a} {f}" | .error e => "err " ++ e)
   | ["xini", "rew", ver, auth, idx, ninit, p22, native, freeze, tlv, badge] => do
       let ver ← ver.toNat?; let auth ← auth.toNat?; let idx ← idx.toNat?; let ninit ← ninit.toNat?
       let p22 ← b01 p22; let native ← b01 native; let freeze ← b01 freeze; let badge ← badge.toNat?
@@ -163,8 +163,8 @@ def stepPure (toks : List String) : Option String :=
       let m : MintIn := { token2022 := p22, native := native, freeze := freeze, tlv := tl, badge := badge }
       pure (match initializeRewardIx (ver == 2) auth (min idx 255) ninit m with | .ok i => s!"ok {i}" | .error e => "err " ++ e)
   | ["xini", "cext", auth, pre] => do
-      let auth ← auth.toNat?; let pre ← b01 pre
-      pure (match initializeConfigExtensionIx auth pre with | .ok _ => "ok" | .error e => "err " ++ e)
+      let auth ← auth.toNat?; let pre ← pre.toNat?
+      pure (match initializeConfigExtensionIx auth (pre == 1) (pre == 2) with | .ok _ => "ok" | .error e => "err " ++ e)
   | ["xini", "badge", auth, feat, pre, ext] => do
       let auth ← auth.toNat?; let feat ← b01 feat; let pre ← b01 pre; let ext ← b01 ext
       pure (match initializeTokenBadgeIx auth feat pre ext with | .ok _ => "ok" | .error e => "err " ++ e)
